@@ -3,9 +3,8 @@
    SgeWorker._verify_exit_code as a function of qacct's answers.
 
    The scheduler is scripted: one stream of answers per command (sbatch: one answer; squeue, sacct:
-   lists consumed in order; scontrol requeue: answer ignored by the code).  A sacct answer is kept
-   structured (empty / a line "<id> STATUS[+] <code>:<sig>" / text the regex does not match): the
-   regex _sacct_re itself is not modelled.  The three option regexes, str.split, `in`, str.replace
+   lists consumed in order; scontrol requeue: answer ignored by the code).  sacct's raw stdout is parsed by
+   parse_sacct, an exact backtracking model of the regex _sacct_re (search), into sacct_ans.  The three option regexes, str.split, `in`, str.replace
    and the first-digits search are modelled exactly on ASCII byte strings. *)
 From Pydra Require Import Base.Prelude.
 Local Open Scope string_scope.
@@ -103,6 +102,71 @@ Definition error_file_pinned (c : submit_ctx) (jobid : string) : option string :
 Inductive sacct_ans := SaNone | SaLine (status : string) (exit_code : nat) | SaGarbage.
 Record squeue_ans := { sq_stdout : string; sq_stderr : string }.
 
+(* ---- _sacct_re : jobid = digits-star, spaces-plus, status = word-star, optional plus sign, spaces-plus,
+   exit_code = digits-plus, colon, digits-plus; applied with .search(stdout) ----
+   Exact backtracking semantics on ASCII text.  From a start position: the digit run (fewer digits cannot be
+   followed by a space), then the run of m >= 1 spaces.  First choice: all m spaces, the maximal word, an
+   optional plus, spaces, digits ':' digit.  The only other parse that can succeed gives up k >= 1 of the m
+   spaces (m >= 2): the status is then empty and the exit code starts right after the spaces. *)
+Definition is_word (c : ascii) : bool :=
+  let n := nat_of_ascii c in
+  (Nat.leb 48 n && Nat.leb n 57) || (Nat.leb 65 n && Nat.leb n 90) || (Nat.leb 97 n && Nat.leb n 122) || Nat.eqb n 95.
+Definition is_sp (c : ascii) : bool := Ascii.eqb c " "%char.
+
+Fixpoint span (p : ascii -> bool) (l : chars) : chars * chars :=
+  match l with
+  | c :: r => if p c then let '(a, b) := span p r in (c :: a, b) else ([], l)
+  | [] => ([], [])
+  end.
+
+Definition exit_code_at (r : chars) : option chars :=
+  let '(ds, r6) := span is_digit r in
+  match ds with
+  | [] => None
+  | _ => match r6 with
+         | colon :: c :: _ => if Ascii.eqb colon ":"%char && is_digit c then Some ds else None
+         | _ => None
+         end
+  end.
+
+Definition after_status (r : chars) : option chars :=
+  let '(sp2, r5) := span is_sp r in
+  match sp2 with [] => None | _ => exit_code_at r5 end.
+
+Definition match_at (l : chars) : option (chars * chars) :=
+  let '(_, r1) := span is_digit l in
+  let '(sp, r2) := span is_sp r1 in
+  match sp with
+  | [] => None
+  | _ =>
+      let '(w, r3) := span is_word r2 in
+      let r4 := match r3 with c :: r => if Ascii.eqb c "+"%char then r else r3 | [] => r3 end in
+      match after_status r4 with
+      | Some ds => Some (w, ds)
+      | None => if Nat.leb 2 (List.length sp)
+                then match exit_code_at r2 with Some ds => Some ([], ds) | None => None end
+                else None
+      end
+  end.
+
+Fixpoint sacct_search (l : chars) : option (chars * chars) :=
+  match match_at l with
+  | Some r => Some r
+  | None => match l with [] => None | _ :: r => sacct_search r end
+  end.
+
+Fixpoint nat_of_digits_acc (l : chars) (acc : nat) : nat :=
+  match l with [] => acc | c :: r => nat_of_digits_acc r (10 * acc + (nat_of_ascii c - 48)) end.
+Definition nat_of_digits (l : chars) : nat := nat_of_digits_acc l 0.
+
+(* what _verify_exit_code makes of sacct's stdout *)
+Definition parse_sacct (stdout : string) : sacct_ans :=
+  if String.eqb stdout "" then SaNone
+  else match sacct_search (la_of stdout) with
+       | None => SaGarbage
+       | Some (w, ds) => SaLine (str_of w) (nat_of_digits ds)
+       end.
+
 Record state_lists := {
   sl_requeue_verify : list string;   (* _verify_exit_code: returned as a string *)
   sl_active : list string;           (* _verify_exit_code: still pending/running *)
@@ -176,7 +240,7 @@ Fixpoint poll_loop (sl : state_lists) (norequeue : bool) (errfile : option (list
 
 Record scheduler := {
   sb_rc : nat; sb_stdout : string;          (* sbatch *)
-  s_squeue : list squeue_ans; s_sacct : list sacct_ans;
+  s_squeue : list squeue_ans; s_sacct : list string;     (* sacct: raw stdout of each call *)
   s_errfile : option (list string)          (* content of the error file, split at newlines *)
 }.
 
@@ -187,7 +251,7 @@ Definition slurm_run (sl : state_lists) (c : submit_ctx) (s : scheduler) : list 
   else match first_digits (sb_stdout s) with
        | None => (argv, NoJobId, [])
        | Some _ =>
-           let '(v, t) := poll_loop sl (contains "--no-requeue" (sc_args c)) (s_errfile s) (s_squeue s) (s_sacct s) in
+           let '(v, t) := poll_loop sl (contains "--no-requeue" (sc_args c)) (s_errfile s) (s_squeue s) (map parse_sacct (s_sacct s)) in
            (argv, v, t)
        end.
 
@@ -200,7 +264,7 @@ Definition slurm_run_pinned (sl : state_lists) (c : submit_ctx) (s : scheduler) 
            match error_file_pinned c j with
            | None => (argv, Crash, [])
            | Some _ =>
-               let '(v, t) := poll_loop sl (contains "--no-requeue" (sc_args c)) (s_errfile s) (s_squeue s) (s_sacct s) in
+               let '(v, t) := poll_loop sl (contains "--no-requeue" (sc_args c)) (s_errfile s) (s_squeue s) (map parse_sacct (s_sacct s)) in
                (argv, v, t)
            end
        end.
